@@ -760,6 +760,10 @@ func (s *sessRun) request(rng *mrand.Rand, q int) {
 				T.stat("session.save-refused-for-length")
 				// nothing of this Save reached the browser: the jar holds what the last successful Save wrote
 				s.ref = s.savedRef
+			} else if strings.Contains(err.Error(), "too long") && len(rec.Header()["Set-Cookie"]) > before {
+				// refused for length, but part of the session has been written already: the browser now holds a mix of two states
+				T.oracle("C07", "a Save that reports failure has written some of the session's cookies: the next request reads a mix of old and new values", M{"err": err.Error(), "lines_written": len(rec.Header()["Set-Cookie"]) - before}, s.replay())
+				s.known = false
 			} else {
 				T.oracle("C17", "Save failed for values written through the API", M{"err": err.Error()}, s.replay())
 				s.known = false
